@@ -31,7 +31,8 @@ def wire_cases(ctx, classes, n_schema, gen, per_class, p_send, p_unknown):
             # deterministic coverage of the tagged section: every tagged field absent (defaults),
             # every default sent explicitly, every tagged field present with a non-default value
             plan = plan + [(True, 0.0, p_unknown), (True, 1.0 if p_send > 0 else 0.0, 0.0), (False, 0.0, 0.0)]
-        for want_default, ps, pu in plan:
+        for k_plan, (want_default, ps, pu) in enumerate(plan):
+            first_of_class = k_plan == 0
             val = gen.entity(cls, want_default=want_default)
             dv = refenc.decorate(gen, cls, val, ps, pu)
             ref = refenc.enc_entity(dv)
@@ -61,10 +62,10 @@ def wire_cases(ctx, classes, n_schema, gen, per_class, p_send, p_unknown):
             c["enc"] = enc
             c["plain_ref"] = plain
             c["c02_ok"] = enc[0] == "ok" and enc[1] == plain
-            if c["c02_ok"] and has_tags and want_default is True:
+            if c["c02_ok"] and (has_tags and want_default is True or first_of_class):
                 # the same instance with its tagged int / str values replaced by EQUAL instances of subclasses of their
                 # types (an IntEnum member such as ErrorCode.none, a str subclass): equal entities, hence the same bytes
-                twin = subclass_twin(inst)
+                twin = subclass_twin(inst, tagged_only=not first_of_class)
                 if twin is not None:
                     enc2 = cc.impl_encode(cls, twin)
                     if not (twin == inst and enc2[0] == "ok" and enc2[1] == plain):
@@ -91,17 +92,21 @@ class _IntSub(int):
 
 
 class _StrSub(str):
-    pass
+    def __str__(self):          # a str subclass may present itself differently (a masking wrapper, a str-mixin enum member):
+        return "<masked>"       # what goes on the wire is the string's DATA
+
+    def __repr__(self):
+        return "_StrSub(" + str.__repr__(self) + ")"
 
 
-def subclass_twin(inst):
-    """dataclasses.replace(inst, tagged int/str fields := equal subclass instances); None if there is nothing to replace"""
+def subclass_twin(inst, tagged_only=True):
+    """dataclasses.replace(inst, int/str fields := equal subclass instances); None if there is nothing to replace"""
     import dataclasses
     import enum
 
     changes = {}
     for f in dataclasses.fields(inst):
-        if "tag" not in f.metadata:
+        if tagged_only and "tag" not in f.metadata:
             continue
         v = getattr(inst, f.name)
         if type(v) is bool or isinstance(v, enum.Enum):
@@ -109,7 +114,10 @@ def subclass_twin(inst):
         if isinstance(v, int):
             changes[f.name] = enum.IntEnum("Twin", {"member": int(v)}).member if len(changes) % 2 == 0 else _IntSub(v)
         elif isinstance(v, str):
-            changes[f.name] = _StrSub(v)
+            if len(changes) % 2 == 0 and v.isidentifier() is False and v != "":
+                changes[f.name] = _StrSub(v)
+            else:
+                changes[f.name] = enum.Enum("TwinText", {"member": v}, type=str).member if v != "" else _StrSub(v)
     if not changes:
         return None
     try:
